@@ -7,7 +7,7 @@ from vf import sym, models, ops
 from vf.sym import SV, INT, BOOL, STR, BYTES, Opt, Tup, List, Set, Dict, Ref, Cls
 from vf.interp import Model, Raised, Exc, Obj, LoopSpec, IterSpec, Closure
 from vf.unit import Unit, Lemma
-from vf.ops import CM, MethodModel
+from vf.ops import Property, CM, MethodModel
 from specs import shared, gc
 from specs.shared import REPO_PY, UF, H
 
@@ -1046,12 +1046,42 @@ def run_setup(b):
         st.emit('gather_ok')
         yield st, st.new_py('list', [None])
 
-    b.bind('asyncio', Obj('asyncio', gather=Model('asyncio.gather', gather)))
-    b.bind('abort', Obj('abort', set=Model('abort.set', lambda i, s, a, k: (s.emit('abort_set'), iter([(s, None)]))[1])))
     AW = models.opaque_type('Awaitable')
-    b.bind('chunk_producer', sym.fresh(AW, 'chunk_producer'))
-    # `await chunk_producer`: the executor future may re-raise the producer's exception
-    b.await_hook = True
+    producer = sym.fresh(AW, 'chunk_producer')
+
+    def join(interp, st, v):
+        # the outcome of the producer thread is OBSERVED here: its exception (a source file that cannot be read, a chunker error) is
+        # re-raised, otherwise it has finished
+        if not z3.eq(v.z, producer.z):
+            yield st, None
+            return
+        bad = st.copy()
+        bad.emit('producer_failed_observed')
+        yield bad, Raised(Exc('AnyError'))
+        st.emit('producer_joined')
+        yield st, None
+
+    AW.on_await = join
+    AW.attrs = {'result': MethodModel('result', lambda i, s, a, k: join(i, s, a[0])),
+                'exception': MethodModel('exception', lambda i, s, a, k: (s.emit('producer_exception_read'), iter([(s, sym.fresh(Opt(models.opaque_type('ExcValue')), 'producer_exc'))]))[1]),
+                'done': MethodModel('done', lambda i, s, a, k: iter([(s, sym.fresh(BOOL, 'done'))]))}
+
+    def wait(interp, st, args, kwargs):
+        # asyncio.wait / shutdown(wait=True): waits for completion but does NOT deliver the outcome
+        st.emit('waited_without_outcome')
+        yield st, (st.new_py('set', []), st.new_py('set', []))
+
+    def passthrough(interp, st, args, kwargs):
+        yield st, args[0]
+
+    asyncio_ = Obj('asyncio', gather=Model('asyncio.gather', gather), wait=Model('asyncio.wait', wait), wrap_future=Model('wrap_future', passthrough),
+                   shield=Model('shield', passthrough), ensure_future=Model('ensure_future', passthrough))
+    b.bind('asyncio', asyncio_)
+    b.bind('abort', Obj('abort', set=Model('abort.set', lambda i, s, a, k: (s.emit('abort_set'), iter([(s, None)]))[1])))
+    b.bind('chunk_producer', producer)
+    ex = Obj('chunk_producer_executor', shutdown=Model('shutdown', wait))
+    ex._lenient = True
+    b.bind('chunk_producer_executor', ex)
 
 
 def run_post(prop):
@@ -1067,6 +1097,11 @@ def run_post(prop):
                     p.kind == 'raise' and not ups and 'abort_set' in kinds))
             elif 'gather_ok' in kinds:
                 n_ok += 1
+                # the producer reads the source files: if it died, the snapshot must fail.  So before the snapshot object is uploaded the
+                # OUTCOME of the producer has been observed (awaited / .result()), not merely its termination
+                for e in ups:
+                    res.oblige(p.pc_at(e), f'{prop}.run.producer_outcome_observed_before_the_snapshot_is_recorded', z3.BoolVal(
+                        'producer_joined' in kinds and kinds.index('producer_joined') < kinds.index('upload')))
                 # the snapshot object is uploaded only after ALL workers returned (C02.snapshot.refs_exist, C03.prefix_safe)
                 for e in ups:
                     res.oblige(p.pc_at(e), f'{prop}.run.snapshot_upload_after_worker_barrier', z3.BoolVal(
@@ -1110,7 +1145,12 @@ def head_setup(b):
         yield st, Obj('stat_result', st_size=SV(INT, UF('size_of_file', FPATH, INT)(args[0].z)),
                       st_mtime_ns=SV(INT, UF('mtime_of_file', FPATH, INT)(args[0].z)))
 
-    FPATH.attrs = {'stat': MethodModel('stat', stat)}
+    def part(name, ty=STR):
+        # a component of the path: a function of the path, NOT injective (two directories hold files of the same name)
+        return Property(lambda i, s_, v: iter([(s_, SV(ty, UF(f'{name}_of_filepath', FPATH, ty)(v.z)))]))
+
+    FPATH.attrs = {'stat': MethodModel('stat', stat), 'name': part('name'), 'stem': part('stem'), 'suffix': part('suffix'),
+                   'parent': part('parent', FPATH)}
 
     def str_(interp, st, args, kwargs):
         (v,) = args
